@@ -51,6 +51,7 @@ fn oracles() -> Vec<(&'static str, Enumerate, Check)> {
         ("c06_keeps", o_unify::enum_keeps, o_unify::check_keeps),
         ("c07_sym", o_mgu::enum_sym, o_mgu::check_sym),
         ("c08_resolve", o_mgu::enum_resolve, o_mgu::check_resolve),
+        ("c09_program", o_unify::enum_anon_program, o_unify::check_anon_program),
     ]
 }
 
